@@ -17,7 +17,7 @@ use std::panic;
 // the working tree's file, by relative path
 #[cfg(not(bfsweep_src_override))]
 mod le {
-    include!("../../../../repo/bindgen/codegen/bitfield_unit.rs");
+    include!("/repo/bindgen/codegen/bitfield_unit.rs");
     include!("ops.rs");
 }
 // self-test of the check: $BFSWEEP_SRC names a mutated copy
